@@ -1,5 +1,5 @@
 /* LD_PRELOAD interposer used by the C19 check: makes the k-th and every later
-   mlock() call fail with ENOMEM.  k = 0 (default) never fails.  The harness
+   mlock() call fail with ENOMEM (or the errno set through verif_mlock_errno).  k = 0 (default) never fails.  The harness
    sets k and reads the call counter through the two exported functions. */
 #define _GNU_SOURCE
 #include <dlfcn.h>
@@ -7,15 +7,17 @@
 #include <stddef.h>
 
 static int fail_from = 0;
+static int fail_errno = ENOMEM;
 static int calls = 0;
 static int (*real_mlock)(const void *, size_t) = 0;
 
 void verif_mlock_set(int k) { fail_from = k; calls = 0; }
+void verif_mlock_errno(int e) { fail_errno = e; }
 int verif_mlock_calls(void) { return calls; }
 
 int mlock(const void *addr, size_t len) {
     if (!real_mlock) real_mlock = (int (*)(const void *, size_t))dlsym(RTLD_NEXT, "mlock");
     calls++;
-    if (fail_from > 0 && calls >= fail_from) { errno = ENOMEM; return -1; }
+    if (fail_from > 0 && calls >= fail_from) { errno = fail_errno; return -1; }
     return real_mlock(addr, len);
 }
